@@ -14,7 +14,7 @@ use serde_json::{json, Value};
 use std::collections::BTreeMap;
 
 /// integers with sum of squares = r, each |x| <= 6144
-fn squares(r: i64) -> Option<Vec<i64>> {
+pub(crate) fn squares(r: i64) -> Option<Vec<i64>> {
     if r < 0 {
         return None;
     }
